@@ -262,6 +262,22 @@ def surgery(rec):
                     if rate in e.free_symbols and k not in ((q_amt,) if direct else ('dose.drug_amount',)) and k != pace_vars[0].qname():
                         return ('refuted', 'sympy identity', '%s: the dose rate also enters %s' % (label, k))
                 msgs.append('%s/%s' % (label, 'direct' if direct else 'indirect'))
+                # choosing another dosed variable of the same compartment afterwards (same route): the model is the one a fresh model gets
+                # for that variable -- the dose rate moves to the newly chosen state
+                if m._model.has_variable('%s.s_b' % comp):
+                    for first_direct in (True, False):
+                        m2 = mk()
+                        m2.set_administration(comp, var, direct=first_direct)
+                        m2.set_administration(comp, 's_b', direct=direct)
+                        f2 = mk()
+                        f2.set_administration(comp, 's_b', direct=direct)
+                        ta, tb = mech.rhs_table(m2._model), mech.rhs_table(f2._model)
+                        bad = [k for k in set(ta) | set(tb) if k not in ta or k not in tb or sp.simplify(ta[k] - tb[k]) != 0]
+                        if bad:
+                            return ('refuted', 'sympy identity', '%s: after set_administration(%s, %s, direct=%s) and then set_administration(%s, s_b, direct=%s) the right-hand side of %s is %s; a fresh model dosed into s_b has %s' % (
+                                label, comp, var, first_direct, comp, direct, bad[0], ta.get(bad[0]), tb.get(bad[0])),
+                                {'program': label, 'direct': direct, 'variable': bad[0], 'expected': str(tb.get(bad[0])), 'observed': str(ta.get(bad[0]))})
+                    msgs.append('%s/%s/re-dosed' % (label, 'direct' if direct else 'indirect'))
         return ('discharged', 'sympy identities on the real myokit models', ', '.join(msgs))
     rec.run('surgery', funcs, 'Pρ', go)
 
